@@ -332,9 +332,9 @@ func (c10) Exec(c *core.Case) (out *core.Outcome) {
 		}
 		// protection of every tracked version before the step, for this caller
 		type pre struct {
-			prot bool
-			why  string
-			mode string
+			prot  bool
+			why   string
+			mode  string
 			until time.Time
 		}
 		pres := make([]pre, len(vers))
